@@ -111,12 +111,12 @@ theorem rt_resetStream (sid ec fs rs : Nat) (hs : sid < 2 ^ 62) (he : ec < 2 ^ 6
       .frame (.resetStream sid ec fs rs) (Frame.resetStream sid ec fs rs).bytes.length := by
   by_cases h0 : rs = 0
   · subst h0
-    exact decode_frame c _ ftResetStream (enc sid ++ enc ec ++ enc fs) rest _ (by simp [Frame.bytes]) (by decide) (by decide)
+    exact decode_frame c _ ftResetStream (enc sid ++ enc ec ++ enc fs) rest _ (by simp [Frame.bytes, posI64]) (by decide) (by decide)
       (by simpa [Frame.typ] using hacc)
       (by rw [body_resetStream]
           exact parseResetStream_of (decodes_enc sid (lt62 hs)) (decodes_enc ec (lt62 he)) (decodes_enc fs (lt62 hf)) rest)
       (by simp <;> omega)
-  · have hpos : rs > 0 := by omega
+  · have hpos : posI64 rs = true := by simp [posI64]; omega
     exact decode_frame c _ ftResetStreamAt (enc sid ++ enc ec ++ enc fs ++ enc rs) rest _
       (by simp [Frame.bytes, h0, hpos]) (by decide) (by decide) (by simpa [Frame.typ, h0] using hacc)
       (by rw [body_resetStreamAt]
